@@ -27,7 +27,8 @@ pub struct Req<'a> {
     pub max_items: usize,
 }
 
-pub const CAP: usize = 200_000;
+/// item cap per run: a lexer that makes progress yields at most one item per byte
+pub const CAP_EXTRA: usize = 16;
 
 /// Bytes of a source or of a slice of it (str and [u8]).
 pub trait Bytes {
@@ -136,7 +137,7 @@ where
             out.push(']');
         }
         out.push(']');
-        if n >= CAP || (req.max_items > 0 && n >= req.max_items) {
+        if n >= all.len() + CAP_EXTRA || (req.max_items > 0 && n >= req.max_items) {
             capped = true;
             break;
         }
@@ -211,7 +212,7 @@ where
                 }
             }
             guard += 1;
-            if guard >= CAP {
+            if guard >= full.len() + CAP_EXTRA {
                 break;
             }
         }
